@@ -1,4 +1,4 @@
-"""C14 — pattern text is parsed by one grammar (narrow structural claim)."""
+"""C14 — pattern text is parsed by one grammar (marker grammar, word splitting and unescaping decided as finite tables)."""
 from cfg import Inconclusive, op_place, show, walk, strip_casts
 from common import (calls_to, callee, closure_creations, closure_consumer, field_chain, fn_of, get_fn, peel, site,
                     guards_of, ret_aggregates, field_assigns)
@@ -8,11 +8,13 @@ from common import iter_pipeline, closure_tree, resolve_capture
 PROP = "C14"
 LEVEL = "other"
 UNDECIDED = [
-    "the grammar as a function from strings to atoms: escape handling inside Atom::new_inner, in particular agreement of its ASCII and non-ASCII halves on backslashes (the word splitter's decision table IS decided)",
-    "smart-case / smart-normalization decisions for all strings",
+    "smart-case / smart-normalization decisions for all strings beyond the flag sources checked by C14.case-source (Smart ⇒ derived from is_upper_case / normalize(c) == c of the stored characters)",
+    "grapheme segmentation of the needle (library behaviour, see C17)",
 ]
 ASSUMPTIONS = [
-    "the byte decision trees of Atom::parse are read off the MIR switch structure (rustc's match lowering)",
+    "Atom::parse only inspects its input at bounded offsets from both ends (the bound is computed from the extracted conditions and the witness domain sized accordingly; fail closed if it exceeds 8 bytes)",
+    "case folding / normalization map neither a space nor a backslash to something else (they are ASCII non-letters: C16.ascii), so the escape transducer's character classes are preserved by the per-character transformations",
+    "std string helpers (strip_prefix, starts_with, strip_suffix, sub-slicing, replace, split) behave as documented (small models in rules/absint.py)",
 ]
 M = "nucleo_matcher"
 PARSE = "pattern::Atom::parse"
